@@ -29,8 +29,12 @@ func (g *Graph) CutPath(rng *rand.Rand, maxLen int) []*Edge {
 					if c.A == "panic" {
 						continue
 					}
+				case "BDAT":
+					if c.P == "panic" {
+						continue
+					}
 				case "DATA":
-					if len(c.P) >= 4 && c.P[:4] == "none" {
+					if len(c.P) >= 4 && (c.P[:4] == "none" || c.P[:4] == "some") || c.P == "all-panic" {
 						continue
 					}
 				case "BAD":
@@ -94,7 +98,7 @@ func CutSweep(g *Graph, srv *drv.Server, path []*Edge, rng *rand.Rand, every int
 		sp.lineEnd = sp.start + bytes.Index(wire[sp.start:], []byte("\r\n")) + 2
 		spans = append(spans, sp)
 	}
-	for off := 0; off <= len(wire); off += every {
+	for off := 0; off <= len(wire) && !drv.TooManyHangs(); off += every {
 		// labels for this prefix
 		node := g.Init
 		var exp []*Edge
